@@ -515,10 +515,10 @@ func (e *SpecEnv) call(x *Expr) SV {
 			specFail("addr(): location has no flat address")
 		}
 		return SV{V: IntV(l.Addr), T: tRef}
-	case "mem8", "memptr", "mem32", "mem64":
+	case "mem8", "memptr", "mem32", "mem64", "memi32":
 		// raw cell access: mem8(a) = mem.uint8[a]
 		a := e.tr(x.Args[0])
-		key := map[string]string{"mem8": "uint8", "memptr": "ptr", "mem32": "uint32", "mem64": "uint64"}[x.Name]
+		key := map[string]string{"mem8": "uint8", "memptr": "ptr", "mem32": "uint32", "mem64": "uint64", "memi32": "int32"}[x.Name]
 		h := sh.cur("mem."+key, "(Array Int Int)")
 		return SV{V: IntV(fmt.Sprintf("(select %s %s)", h, a.V.T)), T: tInt}
 	case "brk":
